@@ -388,10 +388,24 @@ theorem floatMax_text {t : List Char}
     obtain ⟨h1, h2, h3, h4⟩ := h c (by simp)
     simp [floatMax, signLen, h1, h2, mantLen, digitsLen, List.takeWhile_cons, h4, h3]
 
-theorem parseRhs_text {t : List Char}
-    (h : ∀ c ∈ t.head?, (c ≠ '+' ∧ c ≠ '-' ∧ c ≠ '.' ∧ isDecimal c = false)) :
-    parseRhs true t = ⟨t, none⟩ := by
-  simp [parseRhs, floatMax_text h]
+/-- a text that does not start with a sign, a digit or '.' is not number-like -/
+theorem numberLike_of_head {t : List Char}
+    (h : ∀ c ∈ t.head?, (c ≠ '+' ∧ c ≠ '-' ∧ c ≠ '.' ∧ isDecimal c = false)) : numberLike t = false := by
+  simp [numberLike, floatMax_text h]
+
+theorem parseRhs_text {t : List Char} (h : numberLike t = false) : parseRhs true t = ⟨t, none⟩ := by
+  unfold numberLike at h
+  cases hm : floatMax t with
+  | none => simp [parseRhs, hm]
+  | some k =>
+    rw [hm] at h
+    simp only [Bool.or_eq_false_iff] at h
+    obtain ⟨h1, h2⟩ := h
+    have h2' : unitTail (t.drop k) = none := by
+      cases hu : unitTail (t.drop k) with
+      | none => rfl
+      | some u => rw [hu] at h2; cases h2
+    simp [parseRhs, hm, h2', h1]
 
 /-! ### rendered values: trimmed, free of operator characters -/
 
